@@ -745,6 +745,25 @@ func TestDriver(t *testing.T) {
 	for i := 0; i < vh.EnvInt("VERIF_LONG_WORLDS", 0); i++ {
 		d.runWorld(1000+i, true, nil)
 	}
+	// informational: flushes INSIDE a delivery (a spinning flusher; timing dependent, never a verdict)
+	if rounds := vh.EnvInt("VERIF_TORN_ROUNDS", 0); rounds > 0 {
+		w := &world{t: t, id: 9000, net: chainkit.NewNet(5, 3), ssi: 4, mtb: 8}
+		if err := w.build(21, vh.Seed()*104729, 0); err != nil {
+			t.Fatalf("source: %v", err)
+		}
+		ref := w.life(nil, false, w.N, nil, rand.New(rand.NewSource(1)), 0, false)
+		torn, bad, descr, err := tornRounds(w, rounds, ref)
+		w.src.Close()
+		d.res.Inc("torn_images", torn)
+		d.res.Inc("torn_images_end_wrong", bad)
+		d.res.Inc("torn_rounds", rounds)
+		if err != nil {
+			d.res.AddDrift(map[string]any{"part": "synccrash", "drift": "torn-probe-failed", "what": err.Error()})
+		}
+		for _, x := range descr {
+			d.res.AddDrift(map[string]any{"part": "synccrash", "drift": "torn-delivery", "what": x})
+		}
+	}
 	d.tr.Close()
 	if err := d.res.Write(); err != nil {
 		t.Fatal(err)
